@@ -156,12 +156,45 @@ func (s *State) truth(c *Term) int {
 			}
 		} else if c.Op == "eq" {
 			r = s.eqTruth(c.Args[0], c.Args[1])
+		} else if c.Op == "lt" {
+			// replace an operand by a constant it is known to equal
+			for i := 0; i < 2 && r < 0; i++ {
+				if k, ok := s.constOf(c.Args[i]); ok {
+					args := []*Term{c.Args[0], c.Args[1]}
+					args[i] = k
+					if n := tLt(args[0], args[1]); n != c {
+						r = s.truth(n)
+					}
+				}
+			}
 		}
 	}
 	if r >= 0 && neg {
 		r = 1 - r
 	}
 	return r
+}
+
+// constOf: a constant the term is known to equal through an eq fact.
+func (s *State) constOf(t *Term) (*Term, bool) {
+	if t.isConst() {
+		return nil, false
+	}
+	for k, v := range s.facts {
+		if !v {
+			continue
+		}
+		f := s.fterm[k]
+		if f.Op == "eq" {
+			if f.Args[0] == t && f.Args[1].isConst() {
+				return f.Args[1], true
+			}
+			if f.Args[1] == t && f.Args[0].isConst() {
+				return f.Args[0], true
+			}
+		}
+	}
+	return nil, false
 }
 
 // nonNil reports whether a term is known to denote a non-nil value.
@@ -195,6 +228,15 @@ func nonEmptyStr(t *Term) bool {
 func (s *State) eqTruth(a, b *Term) int {
 	if a == b {
 		return 1
+	}
+	// an instance of a summary value is nil iff the summary value is
+	for _, p := range [][2]*Term{{a, b}, {b, a}} {
+		if p[0].isNilConst() && (p[1].Op == "inst" || p[1].Op == "draw") {
+			if v, ok := s.facts[tEq(p[1].Args[0], tNil).key]; ok && !v {
+				return 0
+			}
+			return s.eqTruth(tNil, p[1].Args[0])
+		}
 	}
 	if a.isNilConst() && nonNil(b) || b.isNilConst() && nonNil(a) {
 		return 0
@@ -922,6 +964,35 @@ func (x *Exec) execLoop(fr *Frame, li *loopInfo, pred *ssa.BasicBlock, st *State
 				exits = append(exits, o)
 			}
 		}
+		// loop unswitching: a condition over loop-invariant terms that the
+		// body decided but the entry state leaves open is decided once, before
+		// the loop, by splitting the entry state.
+		if round == 0 {
+			var split []*Term
+			seen := map[string]bool{}
+			for _, b := range backs {
+				for k := range b.facts {
+					t := b.fterm[k]
+					if _, known := st.facts[k]; known || seen[k] || !invariantTerm(t) || st.truth(t) >= 0 {
+						continue
+					}
+					seen[k] = true
+					split = append(split, t)
+				}
+			}
+			sort.Slice(split, func(i, j int) bool { return split[i].key < split[j].key })
+			if len(split) > 0 {
+				t := split[0]
+				var res []blockOut
+				for _, v := range []bool{true, false} {
+					s2 := st.clone()
+					s2.setFact(t, v)
+					s2.note(token.NoPos, "loop-invariant condition %s = %v", t, v)
+					res = append(res, x.execLoop(fr.clone(), li, pred, s2)...)
+				}
+				return res
+			}
+		}
 		nh := st.clone()
 		nh.vac[all.key] = true
 		delete(nh.drawn, cur.key)
@@ -954,6 +1025,20 @@ func (x *Exec) execLoop(fr *Frame, li *loopInfo, pred *ssa.BasicBlock, st *State
 	}
 	fatalf("pathsim: loop at block %d of %s did not stabilise", li.header.Index, funcKey(fr.fn))
 	return nil
+}
+
+// invariantTerm: built from parameters and constants only, so its value
+// cannot change while a loop runs.
+func invariantTerm(t *Term) bool {
+	ok := true
+	t.walk(func(s *Term) {
+		switch s.Op {
+		case "param", "free", "const", "eq", "lt", "not", "bin", "un":
+		default:
+			ok = false
+		}
+	})
+	return ok
 }
 
 // isCountingPhi: the phi's back-edge value is phi + positive constant.
